@@ -4,6 +4,8 @@ import (
 	"bytes"
 	"fmt"
 	"net"
+	"os"
+	"strconv"
 	"strings"
 	"testing"
 	"time"
@@ -308,14 +310,17 @@ func trunc(b []byte) string {
 	return string(b)
 }
 
+var nextPort int
+
+// freePort hands out port triples from a range that belongs to this shard alone (other
+// shards and other checks run at the same time and must not pick the same numbers), below
+// the kernel's ephemeral range.
 func freePort(proto string) (int, error) {
-	for i := 0; i < 50; i++ {
-		l, err := net.Listen("tcp", "127.0.0.1:0")
-		if err != nil {
-			return 0, err
-		}
-		p := l.Addr().(*net.TCPAddr).Port
-		l.Close()
+	shard, _ := strconv.Atoi(os.Getenv("VERIF_SHARD"))
+	lo := 10000 + (shard%16)*1300
+	for i := 0; i < 400; i++ {
+		p := lo + (nextPort*3)%1290
+		nextPort++
 		ok := true
 		for d := 0; d < 3 && ok; d++ {
 			if t, err := net.Listen("tcp", fmt.Sprintf("127.0.0.1:%d", p+d)); err != nil {
@@ -329,11 +334,11 @@ func freePort(proto string) (int, error) {
 				u.Close()
 			}
 		}
-		if ok && p < 65000 {
+		if ok {
 			return p, nil
 		}
 	}
-	return 0, fmt.Errorf("no free port triple")
+	return 0, fmt.Errorf("no free port triple in this shard's range")
 }
 
 var prefixes = []string{"A", "AB", "B", "GET ", "", "ABC"}
